@@ -595,7 +595,9 @@ def main(argv=None):
         replay = json.load(open(a.replay))
         a.seed = replay.get('seed', a.seed)
     sys.path.insert(0, VERIF)
-    return run_check(pid, a.tier, a.seed, replay)
+    # two runs of the same property (and tag) share a work directory: serialise them instead of letting one wipe the other
+    with Lock('.run.%s%s.lock' % (pid, '_' + _TAG if _TAG else '')):
+        return run_check(pid, a.tier, a.seed, replay)
 
 
 if __name__ == '__main__':
